@@ -23,7 +23,7 @@ OPTS = {
     "max_conns": 3, "max_reqs": 4, "p_expect_run": 0.25,
     "send_bytes": [18000, 1000, 9, 1], "watermark": [16777216, 20000, 1000, 50, 1, 0],
     "extra_sizes": ("send_bytes", "watermark", "sendbuf_len"),
-    "p_write": 0.3, "p_halfclose": 0.12,
+    "p_write": 0.3, "p_halfclose": 0.12, "p_blank": 0.1,
 }
 
 
